@@ -34,6 +34,8 @@ func main() {
 		listF   = flag.Bool("list-funcs", false, "list function keys")
 		goarch  = flag.String("goarch", "", "GOARCH for file selection")
 		verbose = flag.Bool("v", false, "print every obligation")
+		patchF  = flag.String("patch", "", "unified diff applied in memory before analysis (debug / audit)")
+		dumpSrc = flag.String("dump-src", "", "print the normalised source of this file (relative path) and exit")
 		audAll  = flag.Bool("audit-all", false, "with -audit: include stored benign patches that are not armed (open false alarms)")
 		noNorm  = flag.Bool("no-normalize", false, "analyse the tree as it is (debug)")
 		genCan  = flag.Bool("gen-canon", false, "print the canonical name table of the current tree (maintenance)")
@@ -81,6 +83,40 @@ func main() {
 		}
 	}
 
+	if *patchF != "" {
+		b, err := os.ReadFile(*patchF)
+		if err != nil {
+			fmt.Println("ERROR", err)
+			os.Exit(2)
+		}
+		po, err := applyUnified(*repo, string(b))
+		if err != nil {
+			fmt.Println("ERROR", err)
+			os.Exit(2)
+		}
+		if ov == nil {
+			ov = map[string][]byte{}
+		}
+		for k, v := range po {
+			ov[k] = v
+		}
+	}
+	if *dumpSrc != "" {
+		p, err := LoadRepo(*repo, false, "", ov)
+		if err != nil {
+			fmt.Println("ERROR", err)
+			os.Exit(2)
+		}
+		for _, n := range p.NormNotes {
+			fmt.Println("// note:", n)
+		}
+		if b, ok := p.Overlay[filepath.Join(*repo, *dumpSrc)]; ok {
+			fmt.Print(string(b))
+		} else {
+			fmt.Println("// file not changed by patch or normalisation")
+		}
+		return
+	}
 	if *audit {
 		os.Exit(runAudit(*repo, *verif, *prop, seed))
 	}
